@@ -78,6 +78,7 @@ fn check(src: &str) -> Result<(), String> {
 }
 
 pub fn run(src: &str) -> Outcome {
+    crate::note_case("c04_graph", json!({"grammar": src}));
     let expected = "every state is closed, and every edge leads to a state subsuming the transition".to_string();
     match catch_unwind(AssertUnwindSafe(|| check(src))) {
         Err(_) => Outcome { fails: true, observed: "panic".into(), expected },
